@@ -300,7 +300,7 @@ def sincos_term(eng, st, e):
         return acc
     if atoms is None:
         # opaque angle: one atom for the whole term
-        key = e.get_id()
+        key = eng.nf_key(e)
         a = s["by_term"].get(key)
         if a is None:
             name = "ang!%d" % (len(s["by_term"]) + 1)
@@ -452,7 +452,7 @@ def _exp(eng, st, x, ty):
     r = _match_log_form(eng, e)
     if r is not None:
         return SV(r, d=_d_scale(x, r))
-    key = e.get_id()
+    key = eng.nf_key(e)
     E = s["exp"].get(key)
     if E is None:
         E = eng.fresh("exp", z3.RealSort())
@@ -476,7 +476,7 @@ def _log(eng, st, x, ty):
     t_of = s.get("exp_of", {}).get(e.get_id()) if z3.is_const(e) else None
     if t_of is not None:
         return SV(t_of, d=_d_scale(x, 1 / e))
-    key = e.get_id()
+    key = eng.nf_key(e)
     L = s["log"].get(key)
     if L is None:
         L = eng.fresh("log", z3.RealSort())
@@ -568,7 +568,7 @@ def _pow(eng, st, x, y, ty):
             from . import trig
             return trig.sqrt(eng, st, x, ty)
     s = _st(eng)
-    key = ("pow", ex.get_id(), ey.get_id())
+    key = ("pow", eng.nf_key(ex), eng.nf_key(ey))
     P = s["exp"].get(key)
     if P is None:
         P = eng.fresh("pow", z3.RealSort())
